@@ -453,6 +453,7 @@ fn ref_list_grants(list: &str, key: &str, kind: char) -> bool {
         })
     })
 }
+const RESOLVE_CMDS: [&str; 4] = ["resolve 1 d $$secret 0 hacked", "resolve 1 d $$token 0 hacked", "resolve 1 d secret 0 hacked", "resolve 1 d public1 0 hacked"];
 const DATA_CMDS: [&str; 22] = ["get secret", "get-safe secret", "get public1", "set secret x", "set public1 y", "set-safe public1 0 z", "increment sea 1", "remove public1", "remove secret",
     "watch secret", "keys", "keys *", "keys $*", "keys $$*", "keys *$$", "keys sec*", "keys *1",
     "get $$secret", "set $$secret hacked", "remove $$token", "increment $$secret 1", "watch $$secret"];
@@ -521,6 +522,15 @@ fn scenario_session(sc: &str) -> Result<Violations, String> {
                     }
                 }
             }
+            // ---- C08 / C09: `resolve` is a write: it needs write permission on the key, and a $$ key needs an administrator
+            if word == "resolve" {
+                let rk = cmd.split(' ').nth(3).unwrap_or("");
+                let m = w.dbs.map.read().unwrap(); let db = m.get("d").unwrap();
+                let now = db.get_value(rk.to_string()).map(|e| e.value);
+                let hacked = now.as_deref() == Some("hacked");
+                if rk.starts_with("$$") { chk(&mut v, "C08.resolve-guarded", !hacked); chk(&mut v, "C08.secure-guard", !hacked); }
+                else if !ref_allowed(login, rk, 'w') { chk(&mut v, "C09.resolve-needs-write", !hacked); chk(&mut v, "C09.permission-gate", !hacked); }
+            }
             // ---- C09: a failed use-db leaves the previous selection untouched
             if USE_FAIL.contains(cmd) {
                 chk(&mut v, "C09.failed-use-db", is_err(&r) && (c.selected_db_name(), c.selected_db_user_name()) == sel_before);
@@ -550,7 +560,7 @@ fn scenario_session(sc: &str) -> Result<Violations, String> {
 fn all_session_scenarios() -> Vec<String> {
     let mut out = vec![];
     for l in 0..LOGIN.len() {
-        for a in DATA_CMDS.iter().chain(ADMIN_CMDS.iter()) { out.push(format!("{}|{}", l, a)); }
+        for a in DATA_CMDS.iter().chain(ADMIN_CMDS.iter()).chain(RESOLVE_CMDS.iter()) { out.push(format!("{}|{}", l, a)); }
         for k in PERM_KEYS { for c in ["get", "set", "increment", "remove", "watch"] { out.push(format!("{}|{} {}{}", l, c, k, if c == "set" { " v" } else if c == "increment" { " 1" } else { "" })); } }
         for pat in ["keys g*", "keys *e", "keys on", "keys go*"] { out.push(format!("{}|{}", l, pat)); }
         for f in USE_FAIL { for a in ["get secret", "get public1", "set secret x", "keys", "remove sea"] { out.push(format!("{}|{};{}", l, f, a)); } }
@@ -681,6 +691,24 @@ fn scenario_lines(sc: &str) -> Result<Violations, String> {
     chk(&mut v, "C10.safety", match probe { Ok((r, _)) => !is_err(&r), Err(_) => false });
     Ok(v)
 }
+/// a client that does not drain its channel (an HTTP request with many commands in one body): `n` times the same line
+fn scenario_flood(sc: &str) -> Result<Violations, String> {
+    let p: Vec<&str> = sc.splitn(2, '|').collect();
+    let n: usize = p[0].parse().map_err(|_| "bad n")?;
+    let w = mk_world(0);
+    let mut v: Violations = vec![];
+    let (mut c, rx) = Client::new_empty_and_receiver();
+    let _ = process_request("use-db d tok", &w.dbs, &mut c);
+    for _ in 0..n {
+        let out = catch_unwind(AssertUnwindSafe(|| process_request(p[1], &w.dbs, &mut c)));
+        if out.is_err() { chk(&mut v, "C10.safety", false); break; }
+    }
+    std::mem::forget(rx);
+    Ok(v)
+}
+fn all_flood_scenarios() -> Vec<String> {
+    ["get secret", "set public1 y", "keys", "rp 1 get secret", "increment sea 1", "watch secret", "get $$secret", "nosuch"].iter().map(|c| format!("130|{}", c)).collect()
+}
 fn all_lines_scenarios() -> Vec<String> {
     let words = ["get", "get-safe", "set", "set-safe", "remove", "increment", "keys", "ls", "watch", "unwatch", "unwatch-all", "use", "use-db", "auth", "create-db", "create-user",
         "set-permissions", "snapshot", "election", "election candidate", "election win", "ack", "rp", "replicate", "replicate-remove", "replicate-increment", "replicate-since",
@@ -701,7 +729,7 @@ fn families() -> Vec<(&'static str, fn() -> Vec<String>, fn(&str) -> Result<Viol
          ("pending", all_pending_scenarios, scenario_pending), ("ids", all_ids_scenarios, scenario_ids),
          ("oplog", all_oplog_scenarios, scenario_oplog), ("session", all_session_scenarios, scenario_session),
          ("arbiter", all_arbiter_scenarios, scenario_arbiter), ("lines", all_lines_scenarios, scenario_lines),
-         ("watch", all_watch_scenarios, scenario_watch)]
+         ("watch", all_watch_scenarios, scenario_watch), ("flood", all_flood_scenarios, scenario_flood)]
 }
 
 fn main() {
